@@ -530,6 +530,23 @@ theorem arc_frees_exactly_once (n : Nat) (hn : 0 < n) (evs : List CountEv) (n' f
   rw [this.2]
   by_cases h0 : n' = 0 <;> simp [h0, hn]
 
+/-- **Atomic counts do not depend on the interleaving** (the premise of T1's
+`accounting_balances`: every update is one atomic delta). Two runs of the same
+clone / drop events in different global orders — two interleavings of the same
+threads — end with the same count and the same number of frees. -/
+theorem atomic_count_interleaving_free (n : Nat) (hn : 0 < n) (evs evs' : List CountEv) (h : evs.Perm evs')
+    (r r' : Nat × Nat) (hr : countRun (n, 0) evs = some r) (hr' : countRun (n, 0) evs' = some r') : r = r' := by
+  obtain ⟨c, f⟩ := r
+  obtain ⟨c', f'⟩ := r'
+  have h1 := arc_frees_exactly_once n hn evs c f hr
+  have h2 := arc_frees_exactly_once n hn evs' c' f' hr'
+  have hc : c = c' := by
+    have := clones_perm h
+    have := drops_perm h
+    omega
+  subst hc
+  rw [h1.2, h2.2]
+
 /-- **Atomic = uninterrupted.** Written as separate loads and stores, but with
 no step of another thread between a thread's load and its store, the count of
 the load/store machine stays equal to the number of live handles and the
